@@ -26,6 +26,7 @@ class Plan:
     notes: list = dfield(default_factory=list)
     extra_accept_units: list = dfield(default_factory=list)  # declaration-only units (acceptance obligations)
     exhaustive: bool = False
+    native_cases: list = dfield(default_factory=list)  # (uid, hname, vals): always executed natively (dev+release); a panic is a violation
     kissat_slice: int = 0  # re-run this many harnesses with kissat (solver diversity)
     features_nightly: tuple = ()
 
@@ -345,6 +346,28 @@ class Runner:
         st = getattr(self, "selftest", {})
         if not st or not all("selftest ok" in v for v in st.values()):
             self.inconclusive.append(f"reference register self-test on documented examples failed: {st}")
+        # plain native executions requested by the plan (e.g. C19: real formatted text vs reference)
+        native_viol = []
+        if plan.native_cases:
+            pre.join()
+            uids = []
+            for (uid, hn, vals) in plan.native_cases:
+                if uid not in uids and not any(k[0] == uid for k in rejected_all):
+                    uids.append(uid)
+            units = []
+            for uid in uids:
+                u = unit_by_uid[uid]
+                hn = set(h for (a, h, _) in plan.native_cases if a == uid)
+                units.append(Unit(u.uid, u.decl, [h for h in u.harnesses if h.name in hn], u.meta, u.pre))
+            cases_n = [c for c in plan.native_cases if c[0] in uids]
+            rr = E.native_replay(os.path.join(self.work, "replay"), units, cases_n, self.dep, self.lock, extra_rt=plan.extra_rt)
+            self.native_runs = len(cases_n)
+            for i, c in enumerate(cases_n):
+                outs = [rr[i].get("dev", ""), rr[i].get("release", "")]
+                if any(("REPLAY panicked" in x and "VERIF-ASSUME-VIOLATED" not in x) for x in outs):
+                    native_viol.append((c, rr[i]))
+                elif not all("REPLAY returned" in x or "VERIF-ASSUME-VIOLATED" in x for x in outs):
+                    self.inconclusive.append(f"native run {c[0]}::{c[1]} did not execute: {outs}")
         # negative controls must be refuted AND reproduce
         ctl_report = []
         for o in controls:
@@ -388,10 +411,16 @@ class Runner:
                 emit("counterexample", o.uid, o.hname, role, o.profile,
                      {"harness_source": o.h.body, "expect": o.h.expect, "failed_checks": [c.get("description") for c in o.failed],
                       "detail": o.detail, "playback_check": getattr(o, "play_desc", None), "input_bytes": getattr(o, "vals", None),
-                      "native": getattr(o, "native", None), "stubs": list(o.h.stubs), "family": o.h.family, "field": o.h.field})
+                      "native": getattr(o, "native", None), "stubs": list(o.h.stubs), "family": o.h.family, "field": o.h.field,
+                      "extra_rt": [os.path.basename(x) for x in plan.extra_rt]})
             else:
                 unrepro.append(o)
                 self.inconclusive.append(f"counterexample for {o.uid}::{o.hname} did not reproduce natively: {o.detail} native={getattr(o, 'native', None)}")
+        for (c, nat) in native_viol:
+            u = unit_by_uid[c[0]]
+            h = [x for x in u.harnesses if x.name == c[1]][0]
+            emit("native-run", c[0], c[1], h.role or u.meta.get("role", ""), "dev",
+                 {"harness_source": h.body, "expect": "pass", "input_bytes": c[2], "native": nat, "detail": "native execution of the harness body fails", "family": h.family, "stubs": [], "extra_rt": [os.path.basename(x) for x in plan.extra_rt]})
         # type errors in harnesses = the generated API does not have the declared shape
         for (uid, hn, prof), msgs in herr_all.items():
             u = unit_by_uid[uid]
@@ -483,6 +512,7 @@ class Runner:
                 "acceptance_wall_s": round(self.stats["accept_wall"], 1),
                 "negative_controls": ctl_report,
                 "oracle_selftest": getattr(self, "selftest", {}),
+                "native_executions": getattr(self, "native_runs", 0),
                 "known_findings_hit": [{"role": k["role"], "unit": r["unit"]} for (r, k) in knowns],
                 "inconclusive": self.inconclusive[:40],
                 "unreproduced_counterexamples": len(unrepro),
